@@ -168,11 +168,16 @@ class RefVM(_Unpickler):
         # report the module a global is *effectively* resolved in: below protocol 3 the stock
         # unpickler renames Python-2 modules and names (pickle.Unpickler(fix_imports=True))
         self.map_py2 = fix_imports
+        self.fc_low = self.fc_high = 0  # globals resolved below / from protocol 3
         self.nops = 0
         self.final_shape = None
 
     # ---- inert resolution -------------------------------------------------
     def find_class(self, module, name):
+        if self.proto < 3:
+            self.fc_low += 1
+        else:
+            self.fc_high += 1
         if self.map_py2 and self.proto < 3:
             import _compat_pickle
 
@@ -248,7 +253,7 @@ class RefVM(_Unpickler):
 
 
 class RefResult:
-    __slots__ = ("ok", "value", "log", "error", "final_shape", "nops", "stack_at_stop")
+    __slots__ = ("ok", "value", "log", "error", "final_shape", "nops", "stack_at_stop", "fc_low", "fc_high")
 
 
 def run_ref(data, on_op=None, fix_imports=False):
@@ -271,4 +276,5 @@ def run_ref(data, on_op=None, fix_imports=False):
         r.error = e
     r.final_shape = vm.final_shape
     r.nops = vm.nops
+    r.fc_low, r.fc_high = vm.fc_low, vm.fc_high
     return r
